@@ -23,6 +23,7 @@ void h_env_free(h_env_t *e);
 void h_env_clear_capture(h_env_t *e);
 
 /* allocation tracking / failure injection (strndup and free are wrapped at link time) */
+extern void (*h_parse_hook_fn)(scpi_t *, const char *, int);
 extern int h_fail_strndup;          /* next strndup returns NULL */
 int h_live_allocs(void);
 void h_alloc_reset(void);
